@@ -46,7 +46,7 @@ fn u_with(b: &Universal2DBox, i: usize, v: f32) -> Universal2DBox {
 fn main() {
     let cli = Cli::parse();
     let mut rep = Report::new("C19", &cli);
-    rep.note("rule", json!("case = random base box (magnitudes 1e-2..1e4, angle None/Some incl. k*pi/2 and |angle|>2pi). Per base: ltwh->universal->ltwh round trip; polygon vertices (also after field writes / rotate_mut following gen_vertices()) vs an f64 rotation of the axis-aligned rectangle (as a vertex set, plus shoelace area in the given order, centroid, max vertex radius vs area()/centre/get_radius()); equality: reflexive, and for EVERY field of BoundingBox (5) and Universal2DBox (5) x delta in {+-EPS/4, +-4EPS, +-1, +-100} x both argument orders: symmetric, equal iff the actual f32 difference < EPS; plus pairs differing in several coordinates at once (all below EPS => equal, any clearly above => unequal) (pairs whose actual difference is within 2% of EPS are skipped and counted); normalize_angle: result in [0, 2pi_f32] and congruent to the input modulo 2pi within rounding. Non-trivial: every base box (distinct by field bits)."));
+    rep.note("rule", json!("case = random base box (magnitudes 1e-2..1e4, angle None/Some incl. k*pi/2 and |angle|>2pi). Per base: ltwh->universal->ltwh round trip; polygon vertices (also after field writes / rotate_mut / by-value rotate following gen_vertices(); for the API-only changes also the carried cached polygon and the consuming clip method's self-clip area) vs an f64 rotation of the axis-aligned rectangle (as a vertex set, plus shoelace area in the given order, centroid, max vertex radius vs area()/centre/get_radius()); equality: reflexive, and for EVERY field of BoundingBox (5) and Universal2DBox (5) x delta in {+-EPS/4, +-4EPS, +-1, +-100} x both argument orders: symmetric, equal iff the actual f32 difference < EPS; plus pairs differing in several coordinates at once (all below EPS => equal, any clearly above => unequal) (pairs whose actual difference is within 2% of EPS are skipped and counted); normalize_angle: result in [0, 2pi_f32] and congruent to the input modulo 2pi within rounding. Non-trivial: every base box (distinct by field bits)."));
     rep.note("assumptions", json!(["equality is judged on the difference actually representable in f32 after applying the delta (at |x|=1e4 a delta of EPS/4 is absorbed by rounding and the pair is then expected to be equal)"]));
     let n = cli.cases(80_000, 800_000);
     let deltas: [f32; 8] = [EPS / 4.0, -EPS / 4.0, 4.0 * EPS, -4.0 * EPS, 1.0, -1.0, 100.0, -100.0];
@@ -104,6 +104,8 @@ fn main() {
         let hh = rng.log_uniform(1e-2, 1e4) as f32;
         // a quarter of the boxes reach these parameters through public field writes AFTER gen_vertices() cached the polygon
         // of an earlier state (the polygon is a function of the current parameters only), or through rotate_mut()
+        let mut api_changed = false;
+        let mut by_value = false;
         let ub = match rng.usize(8) {
             0 => {
                 let mut t = Universal2DBox::new(xc + 3.0 * hh, yc - hh, Some(angle.unwrap_or(0.0) + 0.7), aspect * 1.3, hh * 0.8);
@@ -120,11 +122,57 @@ fn main() {
                 let mut t = Universal2DBox::new(xc, yc, Some(0.4), aspect, hh);
                 t.gen_vertices();
                 t.rotate_mut(angle.unwrap());
+                api_changed = true;
                 rep.count("polygons_after_rotate_mut_following_gen_vertices");
                 t
             }
+            2 if angle.is_some() => {
+                // the by-value builder after gen_vertices(): the new box must not carry the polygon of the old angle
+                let mut t = Universal2DBox::new(xc, yc, Some(angle.unwrap() + 0.9), aspect, hh);
+                t.gen_vertices();
+                api_changed = true;
+                by_value = true;
+                rep.count("polygons_after_rotate(by value)_following_gen_vertices");
+                t.rotate(angle.unwrap())
+            }
             _ => Universal2DBox::new(xc, yc, angle, aspect, hh),
         };
+        if api_changed {
+            // a box brought to its parameters through the API only: whatever polygon it carries, and the polygon the
+            // consuming clip method works with, is the polygon of the CURRENT parameters
+            let w = hh as f64 * aspect as f64;
+            let refp = geom::rect(xc as f64, yc as f64, angle.unwrap_or(0.0) as f64, w, hh as f64);
+            let scale = (xc.abs() as f64).max(yc.abs() as f64) + w + hh as f64;
+            if let Some(p) = ub.get_cached_vertices() {
+                let ext: Vec<(f64, f64)> = p.exterior().0.iter().map(|c| (c.x, c.y)).collect();
+                let okc = ext.len() == 5 && refp.iter().all(|r| ext.iter().any(|v| (v.0 - r.0).abs() <= 1e-9 * scale && (v.1 - r.1).abs() <= 1e-9 * scale));
+                if !okc {
+                    rep.violation("C19/polygon/carried-polygon-of-an-earlier-state", idx, json!({"box": [xc, yc, angle, aspect, hh], "carried": ext, "reference": refp}));
+                }
+            }
+            // (clone() rebuilds the box from its parameters, so a twin is brought to the same state the same way)
+            let twin = if by_value {
+                let mut t = Universal2DBox::new(xc, yc, Some(angle.unwrap() + 0.9), aspect, hh);
+                t.gen_vertices();
+                t.rotate(angle.unwrap())
+            } else {
+                let mut t = Universal2DBox::new(xc, yc, Some(0.4), aspect, hh);
+                t.gen_vertices();
+                t.rotate_mut(angle.unwrap());
+                t
+            };
+            let clip = Universal2DBox::sutherland_hodgman_clip(twin, Universal2DBox::new(xc, yc, angle, aspect, hh));
+            let ca = {
+                let e: Vec<(f64, f64)> = clip.exterior().0.iter().map(|c| (c.x, c.y)).collect();
+                if e.len() >= 4 { geom::shoelace(&e[..e.len() - 1]).abs() } else { 0.0 }
+            };
+            let la = hh as f64 * w;
+            // (only when the box is large enough next to its coordinates for the clip of a box with itself to be meaningful)
+            if w.min(hh as f64) > 1e-3 * scale && (ca - la).abs() > 1e-3 * la {
+                rep.violation("C19/polygon/clip-method-uses-polygon-of-an-earlier-state", idx, json!({"box": [xc, yc, angle, aspect, hh], "self_clip_area": ca, "area": la}));
+            }
+            rep.count("api_changed_boxes_checked(carried polygon, self-clip)");
+        }
         h.f32(xc).f32(yc).f32(angle.unwrap_or(-99.0)).f32(aspect).f32(hh);
         {
             let poly = ub.get_vertices();
